@@ -23,6 +23,7 @@ VARIABLES
     pc,        \* thread -> control point
     mode,      \* thread -> "block" | "nb" | "timed"
     round,     \* thread -> rounds completed
+    obj,       \* thread -> the FileLock object used in the current round (chosen from ObjOf[t])
     depthT,    \* thread -> nesting depth of successful acquires it has not released (harness view)
     tlOwner,   \* object -> thread owning the in-process lock or "none"
     tlDepth,   \* object -> RLock recursion depth
@@ -36,10 +37,10 @@ VARIABLES
     inside,    \* threads inside the critical section
     nfault     \* OSErrors injected so far
 
-vars == <<pc, mode, round, depthT, tlOwner, tlDepth, counter, fd, tmpfd, klock, ofd, nextid, alive, inside, nfault>>
+vars == <<pc, mode, round, obj, depthT, tlOwner, tlDepth, counter, fd, tmpfd, klock, ofd, nextid, alive, inside, nfault>>
 
 None == "none"
-O(t) == ObjOf[t]
+O(t) == obj[t]
 P(t) == ProcOf[t]
 Live(t) == alive[P(t)]
 
@@ -47,6 +48,7 @@ Init ==
     /\ pc = [t \in Threads |-> "idle"]
     /\ mode = [t \in Threads |-> "block"]
     /\ round = [t \in Threads |-> 0]
+    /\ obj = [t \in Threads |-> CHOOSE o \in ObjOf[t] : TRUE]
     /\ depthT = [t \in Threads |-> 0]
     /\ tlOwner = [o \in Objs |-> None]
     /\ tlDepth = [o \in Objs |-> 0]
@@ -68,6 +70,7 @@ FreshId == CHOOSE i \in 1..(Cardinality(ofd) + 1) : \A r \in ofd : r.id # i
 Start(t) ==      \* the harness calls acquire(mode) (first or nested)
     /\ Live(t) /\ pc[t] = "idle" /\ round[t] < Rounds
     /\ \E m \in {"block", "nb", "timed"} : mode' = [mode EXCEPT ![t] = m]
+    /\ \E o \in ObjOf[t] : obj' = [obj EXCEPT ![t] = o]
     /\ Goto(t, "tl_acquire")
     /\ UNCHANGED <<round, depthT, tlOwner, tlDepth, counter, fd, tmpfd, klock, ofd, nextid, alive, inside, nfault>>
 
@@ -83,14 +86,14 @@ TLAcquire(t) ==  \* line: self._thread_lock.acquire(blocking, timeout)
             /\ mode[t] # "block"
             /\ Goto(t, "idle")                      \* return False: nothing changed
             /\ round' = [round EXCEPT ![t] = @ + 1]
-            /\ UNCHANGED <<tlOwner, tlDepth>>
-    /\ UNCHANGED <<mode, depthT, counter, fd, tmpfd, klock, ofd, nextid, alive, inside, nfault>>
+            /\ UNCHANGED <<obj, tlOwner, tlDepth>>
+    /\ UNCHANGED <<obj, mode, depthT, counter, fd, tmpfd, klock, ofd, nextid, alive, inside, nfault>>
 
 IncCounter(t) == \* self._lock_counter += 1 ; if self.is_locked: return True
     /\ Live(t) /\ pc[t] = "inc_counter"
     /\ counter' = [counter EXCEPT ![O(t)] = @ + 1]
     /\ Goto(t, IF fd[O(t)] # 0 THEN "acquired" ELSE "os_open")
-    /\ UNCHANGED <<mode, round, depthT, tlOwner, tlDepth, fd, tmpfd, klock, ofd, nextid, alive, inside, nfault>>
+    /\ UNCHANGED <<obj, mode, round, depthT, tlOwner, tlDepth, fd, tmpfd, klock, ofd, nextid, alive, inside, nfault>>
 
 OsOpen(t) ==     \* fd = os.open(...)   (may fail with OSError: _acquire returns silently)
     /\ Live(t) /\ pc[t] = "os_open"
@@ -102,8 +105,8 @@ OsOpen(t) ==     \* fd = os.open(...)   (may fail with OSError: _acquire returns
        \/ /\ nfault < Faults
           /\ nfault' = nfault + 1
           /\ Goto(t, "check")
-          /\ UNCHANGED <<ofd, tmpfd, nextid>>
-    /\ UNCHANGED <<mode, round, depthT, tlOwner, tlDepth, counter, fd, klock, alive, inside>>
+          /\ UNCHANGED <<obj, ofd, tmpfd, nextid>>
+    /\ UNCHANGED <<obj, mode, round, depthT, tlOwner, tlDepth, counter, fd, klock, alive, inside>>
 
 OsLock(t) ==     \* self._lock(fd, block): flock(LOCK_EX [| LOCK_NB])
     /\ Live(t) /\ pc[t] = "os_lock"
@@ -113,20 +116,20 @@ OsLock(t) ==     \* self._lock(fd, block): flock(LOCK_EX [| LOCK_NB])
           /\ UNCHANGED nfault
        \/ /\ klock # 0 /\ mode[t] # "block"              \* EWOULDBLOCK (non-blocking flock)
           /\ Goto(t, "close_fail")
-          /\ UNCHANGED <<klock, nfault>>
+          /\ UNCHANGED <<obj, klock, nfault>>
        \/ /\ nfault < Faults                             \* any other OSError
           /\ nfault' = nfault + 1
           /\ Goto(t, "close_fail")
           /\ UNCHANGED klock
        \* a blocking flock on a held lock simply stays at this control point
-    /\ UNCHANGED <<mode, round, depthT, tlOwner, tlDepth, counter, fd, tmpfd, ofd, nextid, alive, inside>>
+    /\ UNCHANGED <<obj, mode, round, depthT, tlOwner, tlDepth, counter, fd, tmpfd, ofd, nextid, alive, inside>>
 
 SetFd(t) ==      \* self._lock_file_fd = fd
     /\ Live(t) /\ pc[t] = "set_fd"
     /\ fd' = [fd EXCEPT ![O(t)] = tmpfd[t]]
     /\ tmpfd' = [tmpfd EXCEPT ![t] = 0]
     /\ Goto(t, "check")
-    /\ UNCHANGED <<mode, round, depthT, tlOwner, tlDepth, counter, klock, ofd, nextid, alive, inside, nfault>>
+    /\ UNCHANGED <<obj, mode, round, depthT, tlOwner, tlDepth, counter, klock, ofd, nextid, alive, inside, nfault>>
 
 CloseFail(t) ==  \* except (IOError, OSError): os.close(fd)
     /\ Live(t) /\ pc[t] = "close_fail"
@@ -134,7 +137,7 @@ CloseFail(t) ==  \* except (IOError, OSError): os.close(fd)
     /\ klock' = IF klock = tmpfd[t] THEN 0 ELSE klock
     /\ tmpfd' = [tmpfd EXCEPT ![t] = 0]
     /\ Goto(t, "check")
-    /\ UNCHANGED <<mode, round, depthT, tlOwner, tlDepth, counter, fd, nextid, alive, inside, nfault>>
+    /\ UNCHANGED <<obj, mode, round, depthT, tlOwner, tlDepth, counter, fd, nextid, alive, inside, nfault>>
 
 Check(t) ==      \* if self.is_locked: break / elif not blocking / elif timed out / else sleep
     /\ Live(t) /\ pc[t] = "check"
@@ -142,7 +145,7 @@ Check(t) ==      \* if self.is_locked: break / elif not blocking / elif timed ou
        ELSE IF mode[t] = "nb" THEN Goto(t, "cleanup")
        ELSE IF mode[t] = "timed" THEN (Goto(t, "cleanup") \/ Goto(t, "os_open"))   \* time-out or poll again
        ELSE Goto(t, "os_open")
-    /\ UNCHANGED <<mode, round, depthT, tlOwner, tlDepth, counter, fd, tmpfd, klock, ofd, nextid, alive, inside, nfault>>
+    /\ UNCHANGED <<obj, mode, round, depthT, tlOwner, tlDepth, counter, fd, tmpfd, klock, ofd, nextid, alive, inside, nfault>>
 
 Cleanup(t) ==    \* _cleanup_thread_lock(): counter -= 1 (not below 0); thread lock release; return False
     /\ Live(t) /\ pc[t] = "cleanup"
@@ -152,20 +155,20 @@ Cleanup(t) ==    \* _cleanup_thread_lock(): counter -= 1 (not below 0); thread l
        /\ tlOwner' = [tlOwner EXCEPT ![o] = IF tlDepth[o] = 1 THEN None ELSE @]
     /\ Goto(t, "idle")
     /\ round' = [round EXCEPT ![t] = @ + 1]
-    /\ UNCHANGED <<mode, depthT, fd, tmpfd, klock, ofd, nextid, alive, inside, nfault>>
+    /\ UNCHANGED <<obj, mode, depthT, fd, tmpfd, klock, ofd, nextid, alive, inside, nfault>>
 
 Acquired(t) ==   \* acquire() returned True: enter the critical section, or nest once more
     /\ Live(t) /\ pc[t] = "acquired"
     /\ depthT' = [depthT EXCEPT ![t] = @ + 1]
     /\ \/ /\ inside' = inside \cup {t} /\ Goto(t, "section")
        \/ /\ Reentrant /\ Nest /\ depthT[t] = 0 /\ Goto(t, "tl_acquire") /\ UNCHANGED inside
-    /\ UNCHANGED <<mode, round, tlOwner, tlDepth, counter, fd, tmpfd, klock, ofd, nextid, alive, nfault>>
+    /\ UNCHANGED <<obj, mode, round, tlOwner, tlDepth, counter, fd, tmpfd, klock, ofd, nextid, alive, nfault>>
 
 Leave(t) ==      \* end of the critical section body; release() is called next
     /\ Live(t) /\ pc[t] = "section"
     /\ inside' = inside \ {t}
     /\ Goto(t, "rel_check")
-    /\ UNCHANGED <<mode, round, depthT, tlOwner, tlDepth, counter, fd, tmpfd, klock, ofd, nextid, alive, nfault>>
+    /\ UNCHANGED <<obj, mode, round, depthT, tlOwner, tlDepth, counter, fd, tmpfd, klock, ofd, nextid, alive, nfault>>
 
 \* ------------------------------------------------------------------ release()
 RelCheck(t) ==   \* if not self.is_locked: return ; self._decrement_lock_counter()
@@ -174,7 +177,7 @@ RelCheck(t) ==   \* if not self.is_locked: return ; self._decrement_lock_counter
        THEN /\ Goto(t, "rel_done") /\ UNCHANGED counter
        ELSE /\ counter' = [counter EXCEPT ![O(t)] = IF @ > 0 THEN @ - 1 ELSE 0]
             /\ Goto(t, "rel_decide")
-    /\ UNCHANGED <<mode, round, depthT, tlOwner, tlDepth, fd, tmpfd, klock, ofd, nextid, alive, inside, nfault>>
+    /\ UNCHANGED <<obj, mode, round, depthT, tlOwner, tlDepth, fd, tmpfd, klock, ofd, nextid, alive, inside, nfault>>
 
 RelDecide(t) ==  \* if self._lock_counter == 0: self._release() (fd <- None first)
     /\ Live(t) /\ pc[t] = "rel_decide"
@@ -182,15 +185,15 @@ RelDecide(t) ==  \* if self._lock_counter == 0: self._release() (fd <- None firs
        THEN /\ tmpfd' = [tmpfd EXCEPT ![t] = fd[O(t)]]
             /\ fd' = [fd EXCEPT ![O(t)] = 0]
             /\ Goto(t, "os_unlock")
-       ELSE /\ Goto(t, "tl_release") /\ UNCHANGED <<tmpfd, fd>>
-    /\ UNCHANGED <<mode, round, depthT, tlOwner, tlDepth, counter, klock, ofd, nextid, alive, inside, nfault>>
+       ELSE /\ Goto(t, "tl_release") /\ UNCHANGED <<obj, tmpfd, fd>>
+    /\ UNCHANGED <<obj, mode, round, depthT, tlOwner, tlDepth, counter, klock, ofd, nextid, alive, inside, nfault>>
 
 OsUnlock(t) ==   \* self._unlock(fd)   (an OSError here is logged; the finally still closes)
     /\ Live(t) /\ pc[t] = "os_unlock"
     /\ \/ klock' = (IF klock = tmpfd[t] THEN 0 ELSE klock) /\ UNCHANGED nfault
        \/ nfault < Faults /\ nfault' = nfault + 1 /\ UNCHANGED klock
     /\ Goto(t, "os_close")
-    /\ UNCHANGED <<mode, round, depthT, tlOwner, tlDepth, counter, fd, tmpfd, ofd, nextid, alive, inside>>
+    /\ UNCHANGED <<obj, mode, round, depthT, tlOwner, tlDepth, counter, fd, tmpfd, ofd, nextid, alive, inside>>
 
 OsClose(t) ==    \* finally: os.close(fd)   (closing drops the kernel lock in any case)
     /\ Live(t) /\ pc[t] = "os_close"
@@ -199,7 +202,7 @@ OsClose(t) ==    \* finally: os.close(fd)   (closing drops the kernel lock in an
     /\ tmpfd' = [tmpfd EXCEPT ![t] = 0]
     /\ counter' = [counter EXCEPT ![O(t)] = 0]
     /\ Goto(t, "tl_release")
-    /\ UNCHANGED <<mode, round, depthT, tlOwner, tlDepth, fd, nextid, alive, inside, nfault>>
+    /\ UNCHANGED <<obj, mode, round, depthT, tlOwner, tlDepth, fd, nextid, alive, inside, nfault>>
 
 TLRelease(t) ==  \* self._thread_lock.release()
     /\ Live(t) /\ pc[t] = "tl_release"
@@ -207,7 +210,7 @@ TLRelease(t) ==  \* self._thread_lock.release()
        /\ tlDepth' = [tlDepth EXCEPT ![o] = IF @ > 0 THEN @ - 1 ELSE 0]
        /\ tlOwner' = [tlOwner EXCEPT ![o] = IF tlDepth[o] <= 1 THEN None ELSE @]
     /\ Goto(t, "rel_done")
-    /\ UNCHANGED <<mode, round, depthT, counter, fd, tmpfd, klock, ofd, nextid, alive, inside, nfault>>
+    /\ UNCHANGED <<obj, mode, round, depthT, counter, fd, tmpfd, klock, ofd, nextid, alive, inside, nfault>>
 
 RelDone(t) ==    \* release() returned; unwind one nesting level or finish the round
     /\ Live(t) /\ pc[t] = "rel_done"
@@ -215,7 +218,7 @@ RelDone(t) ==    \* release() returned; unwind one nesting level or finish the r
     /\ IF depthT[t] > 1
        THEN Goto(t, "rel_check") /\ UNCHANGED round
        ELSE Goto(t, "idle") /\ round' = [round EXCEPT ![t] = @ + 1]
-    /\ UNCHANGED <<mode, tlOwner, tlDepth, counter, fd, tmpfd, klock, ofd, nextid, alive, inside, nfault>>
+    /\ UNCHANGED <<obj, mode, tlOwner, tlDepth, counter, fd, tmpfd, klock, ofd, nextid, alive, inside, nfault>>
 
 \* ------------------------------------------------------------------ crash
 Crash(p) ==      \* SIGKILL: the kernel closes every descriptor of the process
@@ -225,7 +228,7 @@ Crash(p) ==      \* SIGKILL: the kernel closes every descriptor of the process
     /\ ofd' = {r \in ofd : r.proc # p}
     /\ klock' = IF \E r \in ofd : r.id = klock /\ r.proc = p THEN 0 ELSE klock
     /\ inside' = {t \in inside : P(t) # p}
-    /\ UNCHANGED <<pc, mode, round, depthT, tlOwner, tlDepth, counter, fd, tmpfd, nextid, nfault>>
+    /\ UNCHANGED <<obj, pc, mode, round, depthT, tlOwner, tlDepth, counter, fd, tmpfd, nextid, nfault>>
 
 \* ------------------------------------------------------------------
 Step(t) == \/ Start(t) \/ TLAcquire(t) \/ IncCounter(t) \/ OsOpen(t) \/ OsLock(t) \/ SetFd(t) \/ CloseFail(t)
